@@ -346,3 +346,80 @@ pub fn stale_wake(group: usize, slot: usize, m: &Meta) -> bool {
 pub fn sample_seen(group: usize, slot: usize) -> [u32; 2] {
     [wakes(wid(group, slot, 0)), wakes(wid(group, slot, 1))]
 }
+
+// ---------------------------------------------- Debug renderings in fingerprints
+
+/// Canonical form of a `Debug` rendering, compressed to 128 bits: every hexadecimal address
+/// (`0x...`) is replaced by the index of its first occurrence in the string, so that two renderings
+/// have the same canonical form iff they have the same shape and the same plain values; the
+/// canonical form then enters the fingerprint as two independently salted 64-bit SipHash values
+/// (keeping the full text made the quick tier 3x slower through key size alone).
+pub fn norm(s: &str) -> [u8; 16] {
+    use std::hash::Hasher;
+    let b = s.as_bytes();
+    let mut h1 = std::collections::hash_map::DefaultHasher::new();
+    let mut h2 = std::collections::hash_map::DefaultHasher::new();
+    h2.write_u64(0x9e37_79b9_7f4a_7c15);
+    let mut seen: [&[u8]; 32] = [&[]; 32];
+    let mut nseen = 0usize;
+    let mut i = 0;
+    let mut start = 0;
+    while i < b.len() {
+        if b[i] == b'0' && i + 1 < b.len() && b[i + 1] == b'x' {
+            let mut j = i + 2;
+            while j < b.len() && b[j].is_ascii_hexdigit() {
+                j += 1;
+            }
+            let tok = &b[i..j];
+            let idx = match seen[..nseen].iter().position(|t| *t == tok) {
+                Some(k) => k,
+                None => {
+                    if nseen < 32 {
+                        seen[nseen] = tok;
+                        nseen += 1;
+                        nseen - 1
+                    } else {
+                        32
+                    }
+                }
+            };
+            h1.write(&b[start..i]);
+            h2.write(&b[start..i]);
+            h1.write(&[b'#', idx as u8]);
+            h2.write(&[b'#', idx as u8]);
+            i = j;
+            start = j;
+        } else {
+            i += 1;
+        }
+    }
+    h1.write(&b[start..]);
+    h2.write(&b[start..]);
+    let mut out = [0u8; 16];
+    out[..8].copy_from_slice(&h1.finish().to_le_bytes());
+    out[8..].copy_from_slice(&h2.finish().to_le_bytes());
+    out
+}
+
+/// parking_lot's raw mutex with a `Debug` impl (the Debug-rendering hooks of the shared flavours
+/// need `MutexType: Debug`); behaviour is delegated unchanged
+pub struct PLD(parking_lot::RawMutex);
+impl std::fmt::Debug for PLD {
+    fn fmt(&self, f: &mut std::fmt::Formatter) -> std::fmt::Result {
+        f.write_str("parking_lot::RawMutex")
+    }
+}
+unsafe impl lock_api::RawMutex for PLD {
+    #[allow(clippy::declare_interior_mutable_const)]
+    const INIT: PLD = PLD(<parking_lot::RawMutex as lock_api::RawMutex>::INIT);
+    type GuardMarker = <parking_lot::RawMutex as lock_api::RawMutex>::GuardMarker;
+    fn lock(&self) {
+        lock_api::RawMutex::lock(&self.0)
+    }
+    fn try_lock(&self) -> bool {
+        lock_api::RawMutex::try_lock(&self.0)
+    }
+    unsafe fn unlock(&self) {
+        lock_api::RawMutex::unlock(&self.0)
+    }
+}
